@@ -560,7 +560,7 @@ func init() {
 							continue
 						}
 						g.emit(mkA(op, c, x, y, 0, "", fresh), op)
-						if (x.F >= 2 || y.F >= 2) && c.T == 0 { // a NaN operand that is also the destination
+						if (x.F >= 1 || y.F >= 1) && c.T == 0 { // a NaN or infinite operand that is also the destination
 							g.emit(mkA(op, c, x, y, 0, "dx", fresh), op+"/alias")
 							g.emit(mkA(op, c, x, y, 0, "dy", fresh), op+"/alias")
 						}
